@@ -32,6 +32,12 @@ pub proof fn lemma_cut_le(fee: int, rate: int)
     vstd::arithmetic::div_mod::lemma_div_pos_is_pos(fee * rate, 10_000);
 }
 
+/// what calculate_fees books for one step
+pub open spec fn fees_booked(fee_amount: u64, protocol_fee_rate: u16, liquidity: u128, proto0: u64, growth0: u128, proto1: u64, growth1: u128) -> bool {
+    let cut = if protocol_fee_rate > 0 { proto_cut(fee_amount as int, protocol_fee_rate as int) } else { 0 };
+    let lp = fee_amount as int - cut;
+    proto1 == wadd64(proto0, cut as u64) && growth1 == (if liquidity > 0 { wadd(growth0, ((lp * Q()) / liquidity as int) as u128) } else { growth0 })
+}
 /// C06: fee = protocol share (rounded down, added to the running protocol fee) + LP share (accrued to in-range liquidity)
 //@ fn manager/swap_manager.rs calculate_fees -> r pub
     requires protocol_fee_rate <= 10_000,
@@ -41,6 +47,7 @@ pub proof fn lemma_cut_le(fee: int, rate: int)
         &&& 0 <= cut <= fee_amount
         &&& r.0 == wadd64(curr_protocol_fee, cut as u64)
         &&& r.1 == (if curr_liquidity > 0 { wadd(curr_fee_growth_global_input, ((lp * Q()) / curr_liquidity as int) as u128) } else { curr_fee_growth_global_input })
+        &&& fees_booked(fee_amount, protocol_fee_rate, curr_liquidity, curr_protocol_fee, curr_fee_growth_global_input, r.0, r.1)
     }),
 //@ inject at /^\{/
     proof { lemma_cut_le(fee_amount as int, protocol_fee_rate as int); }
